@@ -38,6 +38,8 @@ class Decl:
         if self.decor:
             lines.insert(0, "/// A documented alphabet.")
             lines.append("#[allow(dead_code, clippy::upper_case_acronyms)]")
+        if any(v[0][0].islower() for v in self.variants):
+            lines.append("#[allow(non_camel_case_types)]")
         lines.append(f"pub enum {name} {{")
         for vi, v in enumerate(self.variants):
             if self.decor == 1:
@@ -155,6 +157,20 @@ def grammar(tier, seed):
     # G4c: an 8-bit codec whose alternatives are the lower-case letters, written as byte literals
     for lay in (3, 7):
         ds.append(Decl(f"G4c byte-literal alternatives layout={lay}", [("A", 65, "b'A'", None, [97]), ("C", 67, "b'C'", None, [99]), ("G", 71, "b'G'", None, [103]), ("T", 84, "b'T'", None, [116, 117, 85])], bits=8, layout=lay))
+    # G8: variant names of other shapes: lower-case names (among them names starting with `r`, which a derive that
+    # strips a raw-identifier prefix by letters mangles), one-letter names, names with digits and underscores,
+    # names sharing a prefix; the default display character is the first character of the name as written
+    for tag, nms in [
+        ("lower-case r-names", ["rev", "yr", "a", "c"]),
+        ("one-letter lower-case", ["r", "a", "c", "g"]),
+        ("repeated r", ["rr", "Rr", "t", "a"]),
+        ("digits and underscores", ["A1", "B_2", "c_", "D0x"]),
+        ("shared prefixes", ["Ala", "Bla", "Cla", "Dla", "ala"]),
+        ("long names", ["Adenine", "Cytosine", "Guanine", "Thymine", "Uracil", "rAdenine", "hash"]),
+    ]:
+        assert len({n[0] for n in nms}) == len(nms), "G8 names must have distinct first characters"
+        ds.append(Decl(f"G8 names: {tag}", [(n, i, str(i), None, []) for i, n in enumerate(nms)]))
+        ds.append(Decl(f"G8 names: {tag}, with alternatives", [(n, i, str(i), None, ([7 - i] if i < 2 else [])) for i, n in enumerate(nms[:4])], bits=3, layout=len(tag) % 4))
     # G5: variant counts
     for n in [2, 3, 5, 16, 17, 32, 33, 40]:
         nm = names(n)
@@ -250,7 +266,7 @@ fn seq_laws<A: Codec>(tag: &str, maxlen: usize) {
 
 
 # G6: derived codecs of widths 1, 3, 5, 7, 8 that are run through the generic sequence laws
-LAWS_TAGS = {"G2 max=1 bits=1", "G5 variants=5", "G5 variants=17", "G2 max=127 bits=7", "G2 max=128 bits=8", "G5 variants=40 high discriminants"}
+LAWS_TAGS = {"G8 names: lower-case r-names", "G2 max=1 bits=1", "G5 variants=5", "G5 variants=17", "G2 max=127 bits=7", "G2 max=128 bits=8", "G5 variants=40 high discriminants"}
 
 
 def module_source(i, d):
